@@ -15,6 +15,9 @@ def weekday(n):
 
 
 def run(ctx):
+    from rules import shared
+    ctx.include('month_records', shared.month_records)   # leap table, solstice anchor, month memo, memo cells (shared, cached per source hash)
+    ctx.include('jd_tables', shared.jd_tables)           # civil date <-> day number per (year, month) (shared, cached per source hash)
     I = ctx.interp(fuel=80000000)
     t = T(I)
     p = ctx.prog
